@@ -147,18 +147,72 @@ def _ctx(holder):
     return type(holder).__name__
 
 
+def _param_constants(prog, fi, pname):
+    """the constant values a parameter of fi receives anywhere in the package: direct calls `fi(.., v)` / `fi(.., pname=v)` and
+    partial applications `partial(fi, pname=v)` (module level, too)"""
+    from sa.consteval import Folder, UNKNOWN
+    folder = Folder(prog)
+    params = fi.params()
+    out = []
+    for m in prog.modules.values():
+        for c in ast.walk(m.tree):
+            if not (isinstance(c, ast.Call) and isinstance(c.func, (ast.Name, ast.Attribute))):
+                continue
+            args, kws, target = c.args, c.keywords, c.func
+            if prog.ext_name(c.func, c) == "functools.partial" and c.args:
+                target, args = c.args[0], c.args[1:]
+            if not isinstance(target, (ast.Name, ast.Attribute)) or not any(t is fi for t in prog.resolve_expr_fn(target, c)):
+                continue
+            e = next((k.value for k in kws if k.arg == pname), None)
+            if e is None and pname in params and params.index(pname) < len(args):
+                e = args[params.index(pname)]
+            if e is not None:
+                v = folder.fold(e, {}, c)
+                if v is not UNKNOWN:
+                    out.append(v)
+    return out
+
+
 def rule_stripset(prog, rep, tier, scope=None):
-    """STRIP-SET over `scope`."""
+    """STRIP-SET over `scope`: a literal word as the character set of strip / lstrip / rstrip - also when the word arrives through a
+    parameter (`for ns in namespaces: s = s.lstrip(ns)` with `namespaces=("typing.", ...)` bound at a call or a partial)."""
     fns = list(scope) if scope is not None else list(prog.all_functions())
     n = 0
+
+    def wordy(v):
+        return isinstance(v, str) and len(v) >= 4 and sum(ch.isalpha() for ch in v) >= 2
     for fi in fns:
         for c in ast.walk(fi.node):
-            if isinstance(c, ast.Call) and isinstance(c.func, ast.Attribute) and c.func.attr in ("lstrip", "rstrip", "strip") and len(c.args) == 1 \
-                    and isinstance(c.args[0], ast.Constant) and isinstance(c.args[0].value, str):
+            if not (isinstance(c, ast.Call) and isinstance(c.func, ast.Attribute) and c.func.attr in ("lstrip", "rstrip", "strip") and len(c.args) == 1):
+                continue
+            a = c.args[0]
+            if isinstance(a, ast.Constant) and isinstance(a.value, str):
                 n += 1
-                v = c.args[0].value
-                if len(v) >= 4 and sum(ch.isalpha() for ch in v) >= 2:
+                v = a.value
+                if wordy(v):
                     rep.violation(Finding("STRIP-SET", fi.qualname, "%s(%r)" % (c.func.attr, v),
                                           "%s removes any of the characters of %r, not that prefix/suffix: text that begins/ends with some of these letters loses them"
                                           % (src(c, 70), v), loc(prog, c)))
-    rep.ob("STRIP-SET", "%d strip/lstrip/rstrip calls with a literal argument in %d functions" % (n, len(fns)), "holds", "", "none strips a word-like character set")
+            elif isinstance(a, ast.Name):
+                # the argument is a parameter, or a loop variable over one: what the package passes for it
+                pname, elementwise = None, False
+                if a.id in fi.params():
+                    pname = a.id
+                else:
+                    for loop in ast.walk(fi.node):
+                        if isinstance(loop, (ast.For, ast.comprehension)) and isinstance(loop.target, ast.Name) and loop.target.id == a.id \
+                                and isinstance(loop.iter, ast.Name) and loop.iter.id in fi.params():
+                            pname, elementwise = loop.iter.id, True
+                if pname is None:
+                    continue
+                vals = []
+                for v in _param_constants(prog, fi, pname):
+                    vals += list(v) if elementwise and isinstance(v, (tuple, list, set, frozenset)) else [v]
+                words = sorted({v for v in vals if wordy(v)})
+                if vals:
+                    n += 1
+                if words:
+                    rep.violation(Finding("STRIP-SET", fi.qualname, "%s(<%s>):%s" % (c.func.attr, pname, ",".join(words)[:40]),
+                                          "%s is handed %s through the parameter `%s`: it removes any of the *characters* of that word, not the prefix/suffix - "
+                                          "\"int\".lstrip(\"typing.\") is the empty string" % (src(c, 50), ", ".join(repr(w) for w in words), pname), loc(prog, c)))
+    rep.ob("STRIP-SET", "%d strip/lstrip/rstrip calls with a literal or a package-supplied argument in %d functions" % (n, len(fns)), "holds", "", "none strips a word-like character set")
